@@ -81,7 +81,7 @@ func ruleDistributor(w *World, r *Run) {
 			// ---- C15.a PUT-VERBATIM
 			m, _ := constInt(args[0])
 			body := args[2]
-			good := m == "\"PUT\"" && body.Kind == "call" && (body.Name == "bytes.NewReader" || body.Name == "bytes.NewBuffer") && body.Args[2] == wRaw
+			good := m == "\"PUT\"" && body.Kind == "call" && (body.Name == "bytes.NewReader" || body.Name == "bytes.NewBuffer") && body.Args[2] == wRaw && okBefore(s, gl[0], rq.Seq)
 			for _, ev := range eventsOfKind(s, "store") {
 				if mentions(ev.Recv, wRaw) {
 					good = false
@@ -141,7 +141,7 @@ func ruleDistributor(w *World, r *Run) {
 		if success {
 			nOK++
 			do := calls(s, "(*net/http.Client).Do")
-			good := len(reqs) == 1 && len(do) == 1 && do[0].Recv == df("client") && okBefore(s, do[0], 0)
+			good := len(reqs) == 1 && len(do) == 1 && do[0].Recv == df("client") && okBefore(s, do[0], 0) && okBefore(s, reqs[0], do[0].Seq)
 			if good {
 				resp := res(do[0], 0)
 				sc := mk("field", "StatusCode", 0, types.Typ[types.Int], resp)
